@@ -487,7 +487,7 @@ fn mode_c11(s: &mut Session, re: &Regex, p: &str, t: &str, limit: usize, names: 
         ("tpl", "${n}-$m"),
         ("tpl", "$1a"),
         ("tpl", "é$0é"),
-        ("tpl", "$é|$0"),
+        ("tpl", "[$é]"),
         ("noexp", "x"),
         ("noexp", "$1"),
         ("closure", "x"),
@@ -499,7 +499,7 @@ fn mode_c11(s: &mut Session, re: &Regex, p: &str, t: &str, limit: usize, names: 
             if n >= 2 && !matches!((*kind, *rep), ("tpl", "x") | ("tpl", "<$0>") | ("ident", "") | ("noexp", "x")) {
                 continue;
             }
-            if n == 1 && matches!((*kind, *rep), ("tpl", "") | ("tpl", "$$") | ("tpl", "$1a") | ("closure", "$1") | ("noexp", "$1") | ("tpl", "é$0é") | ("tpl", "$é|$0")) {
+            if n == 1 && matches!((*kind, *rep), ("tpl", "") | ("tpl", "$$") | ("tpl", "$1a") | ("closure", "$1") | ("noexp", "$1") | ("tpl", "é$0é") | ("tpl", "[$é]")) {
                 continue;
             }
             let r = catch_unwind(AssertUnwindSafe(|| match *kind {
